@@ -181,6 +181,10 @@ def _cases(arg):
             # a feed-forward program saved after it has been run: the parameter still stands for the measurement, not for the last outcome
             variants["measured_after_run"] = lambda q, a, b: [ops.MeasureHomodyne(0.1) | q[0], ops.Xgate(2 * q[0].par) | q[1]]
             name = list(variants)[idx]
+            if name == "measured_after_run":
+                # measured parameters are process-wide sympy symbols (open C09/C10 finding): start this job as a fresh process would
+                from sympy.core.cache import clear_cache
+                clear_cache()
             prog = sf.Program(12 if name.endswith("high") else 2)
             a, b = prog.params("a", "b")
             with prog.context as q:
